@@ -15,7 +15,7 @@
 (* Sensitive).  Text is sequences of code points (TLC strings only         *)
 (* compare); the default key / marker lists are part of the specification. *)
 (***************************************************************************)
-EXTENDS Integers, Sequences, FiniteSets, TLC, Json
+EXTENDS Integers, Sequences, FiniteSets, SequencesExt, TLC, Json
 
 Lower(s) == [i \in 1..Len(s) |-> IF s[i] >= 65 /\ s[i] <= 90 THEN s[i] + 32 ELSE s[i]]
 IsSub(m, s) == \E i \in 0..(Len(s) - Len(m)) : \A j \in 1..Len(m) : s[i + j] = m[j]
@@ -49,7 +49,7 @@ DefaultMarkers == {
     <<116, 111, 107, 101, 110>>, <<107, 101, 121>>, <<115, 101, 99, 114, 101, 116>>, <<112, 97, 115, 115, 119, 111, 114, 100>>,
     <<97, 117, 116, 104>>, <<115, 101, 115, 115, 105, 111, 110>>, <<112, 97, 115, 115, 119, 100>>, <<99, 114, 101, 100, 101, 110, 116, 105, 97, 108>>}
 \* pool: authorization Authorization AUTHORIZATION aUtHoRiZaTiOn cookie Cookie COOKIE set-cookie Set-Cookie SET-COOKIE x-api-key X-API-Key X-Api-Key X-API-KEY x-auth-token X-Auth-Token X-AUTH-TOKEN token Token-X X-Token mytokenvalue X-Secret-Id client_secret SECRETARY apikey Api_Key KeyId monkey X-Session-Id sessionid Password x-password-hint passwd X-Credential X-Forwarded-For X-Real-Ip PHPSESSID csrftoken Accept Content-Type X-Request-Id X-Trace User-Agent Location ETag X-Custom X-Zeta-Id Kee Tok-en Auht-X sid page theme lang zetacookie
-Pool == <<
+HandPool == <<
     <<97, 117, 116, 104, 111, 114, 105, 122, 97, 116, 105, 111, 110>>,
     <<65, 117, 116, 104, 111, 114, 105, 122, 97, 116, 105, 111, 110>>,
     <<65, 85, 84, 72, 79, 82, 73, 90, 65, 84, 73, 79, 78>>,
@@ -106,6 +106,14 @@ Pool == <<
     <<108, 97, 110, 103>>,
     <<122, 101, 116, 97, 99, 111, 111, 107, 105, 101>>>>
 
+\* The name family is DERIVED from the default key list: every default key in its original, upper-case and mixed-case spelling is a
+\* family element (in header, query and cookie position), next to the hand-written names above (markers in all positions, innocuous names).
+Upper(s) == [i \in 1..Len(s) |-> IF s[i] >= 97 /\ s[i] <= 122 THEN s[i] - 32 ELSE s[i]]
+Mixed(s) == [i \in 1..Len(s) |-> IF i % 2 = 1 /\ s[i] >= 97 /\ s[i] <= 122 THEN s[i] - 32 ELSE s[i]]
+DefaultKeySeq == SetToSeq(DefaultKeys)
+KeyPool == DefaultKeySeq \o [i \in 1..Len(DefaultKeySeq) |-> Upper(DefaultKeySeq[i])] \o [i \in 1..Len(DefaultKeySeq) |-> Mixed(DefaultKeySeq[i])]
+Pool == HandPool \o KeyPool
+
 \* custom configuration used by the checks: keys = {x-custom}, markers = {zeta}
 CustomKeys == {<<120, 45, 99, 117, 115, 116, 111, 109>>}
 CustomMarkers == {<<122, 101, 116, 97>>}
@@ -118,7 +126,10 @@ N_authorization == <<97, 117, 116, 104, 111, 114, 105, 122, 97, 116, 105, 111, 1
 N_cookie == <<99, 111, 111, 107, 105, 101>>
 N_set_cookie == <<115, 101, 116, 45, 99, 111, 111, 107, 105, 101>>
 
-Routes == {"user-header", "auth-basic", "gen-header", "gen-query", "gen-cookie", "url-userinfo", "resp-set-cookie", "resp-header"}
+(* "requests-auth": the credential is put on the request by a `requests` auth object (schema.auth.set_from_requests, auth= at call
+   time) while the request is prepared, under the header `name` *)
+Routes == {"user-header", "auth-basic", "gen-header", "gen-query", "gen-cookie", "url-userinfo", "resp-set-cookie", "resp-header",
+           "requests-auth"}
 Sinks == {"console", "curl", "junit", "vcr", "har"}
 (* is the carrier of the route credential-bearing under cfg?  name = the header / parameter / cookie name the secret travels under *)
 SensCarrier(route, name, cfg) ==
@@ -133,14 +144,19 @@ SensCarrier(route, name, cfg) ==
 ReproOmits == {<<117, 115, 101, 114, 45, 97, 103, 101, 110, 116>>, <<97, 99, 99, 101, 112, 116>>,
                <<97, 99, 99, 101, 112, 116, 45, 101, 110, 99, 111, 100, 105, 110, 103>>, <<99, 111, 110, 110, 101, 99, 116, 105, 111, 110>>,
                <<99, 111, 110, 116, 101, 110, 116, 45, 108, 101, 110, 103, 116, 104>>, <<116, 114, 97, 110, 115, 102, 101, 114, 45, 101, 110, 99, 111, 100, 105, 110, 103>>}
-MustCarry(route, sink, name) ==
+(* omitted = the carrier is one of the headers the reproduction command leaves out *)
+MustCarryBy(route, sink, omitted) ==
     IF route \in {"resp-set-cookie", "resp-header"} THEN sink \in {"vcr", "har"}
     ELSE IF route = "url-userinfo" THEN TRUE
-    ELSE IF route \in {"user-header", "gen-header"} /\ Lower(name) \in ReproOmits THEN sink \in {"vcr", "har"}
+    ELSE IF route = "requests-auth" THEN sink = "curl"          \* Python API: Case.as_curl_command / the failure report's curl sample
+    ELSE IF route \in {"user-header", "gen-header"} /\ omitted THEN sink \in {"vcr", "har"}
     ELSE sink \in {"curl", "junit", "vcr", "har"}
-Expected(route, sink, name, sanitize, cfg) ==
-    IF sanitize /\ SensCarrier(route, name, cfg) THEN "absent"
-    ELSE IF MustCarry(route, sink, name) THEN "present" ELSE "U"
+ExpectedBy(route, sink, sanitize, sens, omitted) ==
+    IF sanitize /\ sens THEN "absent"
+    ELSE IF MustCarryBy(route, sink, omitted) THEN "present" ELSE "U"
+Omitted(name) == Lower(name) \in ReproOmits
+MustCarry(route, sink, name) == MustCarryBy(route, sink, Omitted(name))
+Expected(route, sink, name, sanitize, cfg) == ExpectedBy(route, sink, sanitize, SensCarrier(route, name, cfg), Omitted(name))
 
 ---------------------------------------------------------------------------
 (* Re-configuration within one process is a history.  The configuration API: configure(keys) / configure(markers) REPLACE that
@@ -167,29 +183,37 @@ HNames == <<<<88, 45, 67, 117, 115, 116, 111, 109>>,
             <<65, 117, 116, 104, 111, 114, 105, 122, 97, 116, 105, 111, 110>>>>
 
 ---------------------------------------------------------------------------
-(* the enumerated family: (name, cfg) pairs, then the route x sink x sanitize x cfg matrix for every name *)
-VARIABLES kind, nameIx, cfgKind, route, sink, sanitize
-vars == <<kind, nameIx, cfgKind, route, sink, sanitize>>
+(* the enumerated family: every (name, cfg) pair of the pool, and the abstract flow matrix route x sink x sanitize x
+   (carrier sensitive?) x (carrier omitted by the reproduction command?) *)
+VARIABLES kind, nameIx, cfgKind, route, sink, sanitize, sens, omitted
+vars == <<kind, nameIx, cfgKind, route, sink, sanitize, sens, omitted>>
 Init == \/ /\ kind = "name" /\ nameIx \in 1..Len(Pool) /\ cfgKind \in CfgKinds
-           /\ route = "-" /\ sink = "-" /\ sanitize = TRUE
-        \/ /\ kind = "flow" /\ nameIx \in 1..Len(Pool) /\ cfgKind \in CfgKinds
-           /\ route \in Routes /\ sink \in Sinks /\ sanitize \in BOOLEAN
+           /\ route = "-" /\ sink = "-" /\ sanitize = TRUE /\ sens = FALSE /\ omitted = FALSE
+        \/ /\ kind = "flow" /\ nameIx = 0 /\ cfgKind = "-"
+           /\ route \in Routes /\ sink \in Sinks /\ sanitize \in BOOLEAN /\ sens \in BOOLEAN /\ omitted \in BOOLEAN
 Next == UNCHANGED vars
 Spec == Init /\ [][Next]_vars
 
 (* design-level facts checked on the family *)
-CaseInsensitive == Sensitive(Pool[nameIx], Cfg(cfgKind)) = Sensitive(Lower(Pool[nameIx]), Cfg(cfgKind))
-OffMeansNothingAbsent == (kind = "flow" /\ ~sanitize) => Expected(route, sink, Pool[nameIx], sanitize, Cfg(cfgKind)) # "absent"
-UserinfoAlwaysAbsent == (kind = "flow" /\ sanitize /\ route = "url-userinfo") => Expected(route, sink, Pool[nameIx], TRUE, Cfg(cfgKind)) = "absent"
+CaseInsensitive == kind = "name" => Sensitive(Pool[nameIx], Cfg(cfgKind)) = Sensitive(Lower(Pool[nameIx]), Cfg(cfgKind))
+OffMeansNothingAbsent == (kind = "flow" /\ ~sanitize) => ExpectedBy(route, sink, sanitize, sens, omitted) # "absent"
+UserinfoAlwaysAbsent == kind = "name" => \A s \in Sinks : Expected("url-userinfo", s, Pool[nameIx], TRUE, Cfg(cfgKind)) = "absent"
+(* customising changes exactly Sensitive: same name, same flow, another cfg => the expectation differs only if Sensitive differs *)
+ExactlySensitive == kind = "name" =>
+    \A r \in Routes, s \in Sinks, z \in BOOLEAN, k \in CfgKinds :
+        (SensCarrier(r, Pool[nameIx], Cfg(k)) = SensCarrier(r, Pool[nameIx], Cfg(cfgKind)))
+            => Expected(r, s, Pool[nameIx], z, Cfg(k)) = Expected(r, s, Pool[nameIx], z, Cfg(cfgKind))
 (* the well-known credential headers are sensitive under the default configuration *)
 DefaultsCoverStandardHeaders == \A n \in {N_authorization, N_cookie, N_set_cookie} : Sensitive(n, Cfg("default"))
-(* customising changes exactly Sensitive: same name, same flow, different cfg => expectation differs only if Sensitive differs *)
-ExactlySensitive == kind = "flow" =>
-    \A k \in CfgKinds : (SensCarrier(route, Pool[nameIx], Cfg(k)) = SensCarrier(route, Pool[nameIx], Cfg(cfgKind)))
-                          => Expected(route, sink, Pool[nameIx], sanitize, Cfg(k)) = Expected(route, sink, Pool[nameIx], sanitize, Cfg(cfgKind))
+(* every default key, in any of the three spellings, is sensitive as long as the key list is the default one - whatever the markers *)
+EveryDefaultKeySensitive == \A j \in 1..Len(KeyPool) : Sensitive(KeyPool[j], Cfg("default")) /\ Sensitive(KeyPool[j], Cfg("custom-markers"))
+ASSUME DefaultsCoverStandardHeaders
+ASSUME EveryDefaultKeySensitive
 
 Export == IF kind = "name"
-          THEN PrintT(<<"NAME", ToJson([name |-> Pool[nameIx], cfg |-> cfgKind, sensitive |-> Sensitive(Pool[nameIx], Cfg(cfgKind))])>>)
-          ELSE PrintT(<<"FLOW", ToJson([name |-> Pool[nameIx], cfg |-> cfgKind, route |-> route, sink |-> sink, sanitize |-> sanitize,
-                                         expected |-> Expected(route, sink, Pool[nameIx], sanitize, Cfg(cfgKind))])>>)
+          THEN PrintT(<<"NAME", ToJson([name |-> Pool[nameIx], cfg |-> cfgKind, sensitive |-> Sensitive(Pool[nameIx], Cfg(cfgKind)),
+                                         omitted |-> Omitted(Pool[nameIx]), isDefaultKey |-> Pool[nameIx] \in DefaultKeys,
+                                         carrier |-> [r \in Routes |-> SensCarrier(r, Pool[nameIx], Cfg(cfgKind))]])>>)
+          ELSE PrintT(<<"FLOW", ToJson([route |-> route, sink |-> sink, sanitize |-> sanitize, sens |-> sens, omitted |-> omitted,
+                                         expected |-> ExpectedBy(route, sink, sanitize, sens, omitted)])>>)
 =============================================================================
